@@ -41,8 +41,8 @@ func c04Commands(kind string) [][]string {
 	case "kinds":
 		var out [][]string
 		for _, y := range c03Alphabet("quick") {
-			if y.Args[0] == "@ADVANCE" {
-				continue
+			if strings.HasPrefix(y.Args[0], "@") || y.Args[0] == "AOFSHRINK" {
+				continue // harness directives; and a rewrite would replace the command kinds by plain SETs
 			}
 			out = append(out, y.Args)
 		}
